@@ -77,9 +77,9 @@ class CompositePredicate(Predicate):
         return self.reducer(pred(node) for pred in predicates)
 
     def dynamic_call(self, node: Union[ast.AST, int]) -> bool:
-        return (
-            True if self.static else self(node, predicates=self.dynamic_base_predicates)
-        )
+        # every part is evaluated: the rewriter only establishes that SOME handler of the event wants
+        # the node, so the static parts of this predicate may well be false for it
+        return True if self.static else self(node)
 
     @classmethod
     def _create(cls, base_predicates: Sequence[Predicate], reducer) -> Predicate:
